@@ -1,7 +1,7 @@
 CONSTANTS
   Creators = {"p1"}
   Signers = {"c1", "k1"}
-  CUs = {60, 150}
+  CUs = {150, 1000000, 1000002}
   Sessions = {1, 2}
   Muts = {"none", "qzero", "badge"}
   Muts2 = {"none", "lava", "badge"}
@@ -10,8 +10,8 @@ CONSTANTS
   MaxEpoch = 2
   MaxOps = 2
   GenHist = FALSE
-  F2Fixed = FALSE
-  CuGuard = FALSE
+  F2Fixed = TRUE
+  CuGuard = TRUE
   Profile = ""
 INIT Init
 NEXT Next
